@@ -1,1 +1,71 @@
-From OIDC Require Import Lib C04_spec.
+(* C04 property theorems: a code yields tokens once, only to its client, redirect URI
+   and PKCE proof.  Nothing but statements closed by [exact].
+   Vocabulary (coq/theories/C04_OP.v): [step H cf r s o] is one request to router r
+   (Provider = op.NewProvider's handlers, Legacy = RegisterLegacyServer(NewLegacyServer))
+   over storage state s; [exec H cf ops = (h, s)] runs an operation list from the empty
+   storage and returns the history h of events (pre-state, router, operation, answer,
+   post-state); H is the S256 transform (arbitrary function), cf the provider
+   configuration with its client registrations. [cred_proves cf cr id]
+   (C04_Ledger.v): credential cr authenticates confidential client id (secret or verified
+   assertion), or names public client id. *)
+From OIDC Require Import Lib C04_OP C04_Ledger C04_Hist C04_spec C04_proofs C04_spec_proofs.
+
+(* Every successful code exchange, on either router, in every history: the code came
+   out of an earlier callback for a request q that is still stored and completed by an
+   earlier login; the caller proves q's client; redirect_uri equals q's; a challenge
+   demands a matching verifier; a public client needs a challenge; the tokens carry q's
+   subject, client, scopes and nonce. *)
+Theorem C04_exchange_sound : forall (H : string -> string) (cf : cfg) ops h s,
+  exec H cf ops = (h, s) ->
+  forall h1 e h2 cr code uri ver t,
+    h = h1 ++ e :: h2 -> e_op e = TokenCode cr code uri ver -> e_out e = OTokens t ->
+  exists c q,
+    code = Some c
+    /\ (exists ecb, In ecb h1 /\ e_op ecb = Callback (q_id q) /\ e_out ecb = OCode c)
+    /\ find_req (e_pre e) (q_id q) = Some q /\ q_done q = true
+    /\ (exists elog, In elog h1 /\ e_op elog = Login (q_id q) (q_sub q) (q_auth q) /\ e_out elog = OLogin true)
+    /\ (exists eau, In eau h1
+          /\ e_op eau = Authorize (q_client q) (q_uri q) (q_scopes q) (q_nonce q) (q_chal q)
+          /\ e_out eau = OAuthz (Some (q_id q)))
+    /\ cred_proves cf cr (q_client q) = true
+    /\ uri = q_uri q
+    /\ (forall ch, q_chal q = Some ch -> ver <> "" /\ (if fst ch then H ver else ver) = snd ch)
+    /\ (client_public cf (q_client q) = true -> q_chal q <> None)
+    /\ t_at_sub t = q_sub q /\ (In "openid" (q_scopes q) -> t_sub t = q_sub q)
+    /\ t_azp t = q_client q /\ In (q_client q) (t_aud t)
+    /\ (forall x, t_jwt t = Some x -> x = q_client q)
+    /\ t_scope t = q_scopes q /\ t_nonce t = q_nonce q.
+Proof. exact exchange_sound. Qed.
+Print Assumptions C04_exchange_sound.
+
+(* No code appears in two successful exchanges of one history. *)
+Theorem C04_single_use : forall (H : string -> string) (cf : cfg) ops h s,
+  exec H cf ops = (h, s) ->
+  forall h1 e1 h2 e2 h3 c cr1 u1 v1 cr2 u2 v2,
+    h = h1 ++ e1 :: h2 ++ e2 :: h3 ->
+    e_op e1 = TokenCode cr1 (Some c) u1 v1 -> is_tokens (e_out e1) = true ->
+    e_op e2 = TokenCode cr2 (Some c) u2 v2 -> is_tokens (e_out e2) = true -> False.
+Proof. exact single_use. Qed.
+Print Assumptions C04_single_use.
+
+(* A callback hands out a code only for a stored request that an earlier login completed. *)
+Theorem C04_not_done_no_code : forall (H : string -> string) (cf : cfg) ops h s,
+  exec H cf ops = (h, s) ->
+  forall h1 e h2 n c, h = h1 ++ e :: h2 -> e_op e = Callback n -> e_out e = OCode c ->
+  exists q, find_req (e_pre e) n = Some q /\ q_done q = true
+    /\ exists elog, In elog h1 /\ e_op elog = Login n (q_sub q) (q_auth q) /\ e_out elog = OLogin true.
+Proof. exact not_done_no_code. Qed.
+Print Assumptions C04_not_done_no_code.
+
+Theorem C04_not_done_no_code_step : forall (H : string -> string) (cf : cfg) r s n,
+  (forall q, find_req s n = Some q -> q_done q = false) ->
+  forall c, snd (step H cf r s (Callback n)) <> OCode c.
+Proof. exact not_done_no_code_step. Qed.
+Print Assumptions C04_not_done_no_code_step.
+
+(* The property predicate of the check (C04_Ledger.c04_ok folded over the history, the
+   function that is evaluated on the implementation's answers) accepts every history of
+   the model: all inputs, no side condition. *)
+Theorem C04_spec_holds : forall i : input, spec i (model i) = true.
+Proof. exact spec_holds. Qed.
+Print Assumptions C04_spec_holds.
